@@ -557,6 +557,42 @@ example :
     smooth g [] 1 q = q ∧ defined g [] = true ∧ p.length = q.length ∧
       linfDist p q = 1/4 ∧ linfDist (smooth g [] 1 p) q = 0 := by decide +kernel
 
+/-
+Full statement of a convergence *rate* (not proved): on an anchored graph whose free junctions are at most `d` links from
+the frame and have at most `Δ` neighbours, `d` sweeps shrink the max-norm distance to the fixed point by the factor
+`1 − Δ^(−d)`; hence the positions converge geometrically.  Proved part: the first level of that argument — the update of
+a free junction that has a neighbour on the frame (same value in `p` and in the fixed point `q`) leaves it with an
+error of at most `(1 − 1/degree)·M` when all errors are at most `M`.  Missing: the propagation through the levels
+(a junction at level `k+1` has a neighbour at level `k` whose bound `(1 − Δ^(−k))·M` persists under later updates), an
+induction over sweeps inside an induction over the fold of one sweep, with levels defined from `Reach`.
+-/
+/-- first level of the rate: next to the frame one update contracts the error by `1 − 1/degree` (any coordinate or
+    linear functional `c` of the position, any graph, in-place order) -/
+theorem T_C15_rate_partial (g : Grid) (fixed : List Nat) (q p : List V3) (j t : Nat) {c : V3 → Rat} (hc : IsLin c)
+    (hq : smooth g fixed 1 q = q) (hj : j ∈ inner g) (hf : j ∉ fixed) (hl : j < p.length) (hlq : j < q.length)
+    (ht : t ∈ junctionNbrs g j) (ht0 : pget p t = pget q t)
+    (M : Rat) (hM : ∀ i, |c (pget p i) - c (pget q i)| ≤ M) :
+    |c (pget (step (junctionNbrs g) fixed p j) j) - c (pget q j)|
+      ≤ (1 - 1 / ((junctionNbrs g j).length : Rat)) * M := by
+  obtain ⟨hlt, hbd⟩ := (mem_inner g j).mp hj
+  have hqj := (T_C15_fixpoint g fixed q).mp hq j hlt hbd hf hlq
+  rw [abs_le]
+  have hup := step_err_contract hc (junctionNbrs g) fixed q p j t hf hl hqj ht (by rw [ht0]; simp) M
+    (fun i => (abs_le.mp (hM i)).2)
+  have hlo := step_err_contract hc.neg (junctionNbrs g) fixed q p j t hf hl hqj ht (by rw [ht0]; simp) M
+    (fun i => by have := (abs_le.mp (hM i)).1; linarith)
+  constructor <;> linarith
+
+/-- non-vacuity: 3×3 map, regular lattice `q`, all four interior points of `p` displaced by at most 1/4; point 5 has the
+    frame neighbours 1 and 4: after its update its x-error is at most (1 − 1/4)·(1/4) -/
+example :
+    let g := structQuads 3 3
+    let q := latticePts 3 3 ⟨0, 0, 0⟩ ⟨1, 0, 0⟩ ⟨0, 1, 0⟩
+    let p := ((q.set 5 ⟨5/4, 1, 0⟩).set 6 ⟨9/4, 1, 0⟩).set 9 ⟨5/4, 2, 0⟩
+    smooth g [] 1 q = q ∧ 5 ∈ inner g ∧ 1 ∈ junctionNbrs g 5 ∧ pget p 1 = pget q 1 ∧
+      (pget (step (junctionNbrs g) [] p 5) 5).x - (pget q 5).x = 1/8 ∧ (1 - 1 / (4 : Rat)) * (1/4) = 3/16 := by
+  decide +kernel
+
 /-- **Uniqueness of the fixed point (discrete maximum principle)**, every graph: two position lists that are both
     unchanged by a sweep and agree on all boundary and fixed junctions are equal, as soon as every free inner
     junction is linked to a boundary or fixed junction along neighbour links. -/
